@@ -76,6 +76,7 @@ structure Run where
 structure Tx where
   k : Nat
   peer : String
+  ok : Bool
   valid : Bool
   sent : Option Bundle    -- none = did not parse
 
@@ -86,11 +87,11 @@ def parseRun (s : String) : Option Run :=
 
 def parseTx (s : String) : Option Tx :=
   match s.splitOn ";" with
-  | [k, peer, _ok, valid, dump] =>
+  | [k, peer, ok, valid, dump] =>
     match k.toNat? with
     | some k =>
-      if dump == "unparsable" then some ⟨k, peer, false, none⟩
-      else (parseDump dump).map (fun b => ⟨k, peer, valid == "1", some b⟩)
+      if dump == "unparsable" then some ⟨k, peer, ok == "1", false, none⟩
+      else (parseDump dump).map (fun b => ⟨k, peer, ok == "1", valid == "1", some b⟩)
     | none => none
   | _ => none
 
@@ -99,6 +100,15 @@ def ownedOf (algo : String) : List Nat :=
 
 def dropOwned (owned : List Nat) (b : Bundle) : Bundle :=
   { b with blocks := b.blocks.filter (fun x => !owned.contains x.type) }
+
+def hasOwned (owned : List Nat) (b : Bundle) : Bool := b.blocks.any (fun x => owned.contains x.type)
+
+/-- The routing algorithm's `SenderForBundle` runs after `transform`: it updates its own block in
+place, or appends it with `AddExtensionBlock` (which sorts the list once more). The block itself is
+not compared (`owned`), only its effect on the order of the others. -/
+def viewOwned (owned : List Nat) (accHas : Bool) (impl : Bundle) (m : Bundle) : Bundle :=
+  if !accHas && hasOwned owned impl then dropOwned owned { m with blocks := sortBlocks m.blocks }
+  else dropOwned owned m
 
 def sentAge (b : Bundle) : Option Nat := firstAge b.blocks
 
@@ -160,7 +170,9 @@ def corrRun (known owned : List Nat) (node : Bytes) (acc : Bundle) (store : Opti
   match mine with
   | [] =>
     let cands := [step r.elLo r.nowLo, step r.elHi r.nowHi, step r.elLo r.nowHi, step r.elHi r.nowLo]
-    match cands.find? (fun c => c.1.isNone && c.2.isSome == r.stored) with
+    -- nothing handed over and the bundle still stored: either the model refuses as well, or no
+    -- convergence sender was selected in this run (routing, not part of this property)
+    match cands.find? (fun c => c.2.isSome == r.stored && (c.1.isNone || r.stored)) with
     | some c => .ok c.2
     | none =>
       let c := step r.elLo r.nowLo
@@ -176,11 +188,16 @@ def corrRun (known owned : List Nat) (node : Bytes) (acc : Bundle) (store : Opti
       match cands.find? (fun c => c.1.isSome) with
       | none => .error s!"run{r.k} impl sent, model refuses"
       | some c =>
-        let m := c.1.map (dropOwned owned)
-        match mine.find? (fun t => t.sent.map (dropOwned owned) != m) with
-        | some t' => .error s!"run{r.k} peer={t'.peer} model: {showOpt m} impl: {showOpt (t'.sent.map (dropOwned owned))}"
+        let accHas := hasOwned owned acc
+        let view (t : Tx) : Option Bundle := match t.sent, c.1 with
+          | some i, some m => some (viewOwned owned accHas i m)
+          | _, _ => none
+        match mine.find? (fun t => t.sent.map (dropOwned owned) != view t) with
+        | some t' => .error s!"run{r.k} peer={t'.peer} model: {showOpt (view t')} impl: {showOpt (t'.sent.map (dropOwned owned))}"
         | none =>
-          if c.2.isSome != r.stored then .error s!"run{r.k} stored impl={r.stored} model={c.2.isSome}"
+          -- after a successful transmission the algorithm may have the bundle deleted (direct delivery)
+          if !r.stored && mine.any (·.ok) then .ok none
+          else if c.2.isSome != r.stored then .error s!"run{r.k} stored impl={r.stored} model={c.2.isSome}"
           else .ok c.2
 
 def handleFwd (node : Bytes) (algo : String) (known : List Nat) (acc : Bundle) (mem : String)
